@@ -312,6 +312,28 @@ func c15(tier string, args []string) int {
 	r.Set("traces_validated_against_impl", totT)
 	r.Set("distinct_outcome_classes", len(outcomes))
 	r.Set("json_round_trips", roundTrips)
+	// the same answer submitted twice AT THE SAME TIME: every schedule of the two requests within
+	// the pre-emption bound, on the real node under the cooperative scheduler; the outcome (pool,
+	// retired set, rounds, what was appended to the board) must be that of the two one after the other
+	{
+		bound := 2
+		if tier == "thorough" {
+			bound = 3
+		}
+		rec3 := getRecording(r, 3, 2)
+		scheds := 0
+		scs := duplicateSubmissionScenarios(r, rec3)
+		for _, sc := range scs {
+			if r.TimeUp() {
+				break
+			}
+			e, _ := runC14(r, rec3, sc, bound)
+			scheds += e
+		}
+		r.Set("concurrent_duplicate_submission_scenarios", len(scs))
+		r.Set("concurrent_duplicate_submission_schedules", scheds)
+		r.Set("preemption_bound", bound)
+	}
 	r.Set("rule", "BFS (depth-bounded) over (node store, retired set) from every recorded state with a pending operation; inputs are API submissions (genuine / each field edited / request-only / unknown id / retired id), participation approvals and board deliveries (next, replays, cancelling error report), each executed on the real node; oracle = reference pool model. Second clause: every operation and result through json file round trip and through the real HTTP handler")
 	return finish(r)
 }
